@@ -31,7 +31,7 @@ BoolPreds ==
     \cup {Bin(op, pp, Lit("1")) : op \in {"=", "!="}, pp \in PredPathsVM}
     \cup {Bin(op, pp, R1("child", NTAny)) : op \in {"and", "or"}, pp \in PredPathsVM}
     \cup {Bin("or", Call("not", <<pp>>), Bin("=", R1("child", NTAny), Lit("1"))) : pp \in PredPathsVM}
-NumPreds == {NumL(1), NumL(2), NumL(3)}
+NumPreds == {NumL(1), NumL(2), NumL(3), NumLit(Fin(FALSE, 3, 1)), NumLit(Fin(FALSE, 5, 1)), NumLit(Fin(FALSE, 1, 1)), NumLit(Fin(TRUE, 3, 1)), NumLit(NumInt(0))}
 DosN == Step("descendant-or-self", NTNode, <<>>)
 HostsOf(ps) ==
     {Path(FALSE, <<Step(hax, NTAny, ps)>>) : hax \in HostAxes}
@@ -153,7 +153,16 @@ KF1(e) == CASE e.t = "call" -> \/ (e.f \in {"contains", "starts-with"} /\ e.args
          [] e.t = "filter" -> KF1(e.e) \/ \E k \in 1 .. Len(e.preds) : KF1(e.preds[k])
          [] OTHER -> FALSE
 ClaimedShape(e) == IF e.t = "path" THEN ClaimedSteps(e.steps) ELSE IF e.t = "filter" THEN e.e.t = "path" ELSE TRUE
-Claimed(e) == ClaimedShape(e) /\ ~KF1(e)
+\* the recorded finding KF-C03-1 (a numeric predicate >= 1 that is no integer is truncated) is reproduced by the model too
+FracPred(p) == p.t = "num" /\ p.v.k > 0 /\ ~p.v.neg /\ p.v.n >= 2 ^ p.v.k
+RECURSIVE KF3(_)
+KF3(e) == CASE e.t = "path" -> \E i \in 1 .. Len(e.steps) : \E k \in 1 .. Len(e.steps[i].preds) : FracPred(e.steps[i].preds[k]) \/ KF3(e.steps[i].preds[k])
+            [] e.t = "filter" -> KF3(e.e) \/ \E k \in 1 .. Len(e.preds) : FracPred(e.preds[k]) \/ KF3(e.preds[k])
+            [] e.t = "bin" -> KF3(e.l) \/ KF3(e.r)
+            [] e.t = "union" -> KF3(e.l) \/ KF3(e.r)
+            [] e.t = "call" -> \E i \in 1 .. Len(e.args) : KF3(e.args[i])
+            [] OTHER -> FALSE
+Claimed(e) == ClaimedShape(e) /\ ~KF1(e) /\ ~KF3(e)
 
 VM2Refines ==
     (IsCase /\ Claimed(expr)) =>
